@@ -5,10 +5,10 @@ T = "Tinode.Props.C02."
 PROP = dict(
     id="C02",
     level_text='Kernel-checked Lean theorems: the traffic of an accepted publish is the acknowledgement followed by one fixed copy per member of dataRcpt; a session is in dataRcpt iff it is attached, is not the no-echo publisher and acts for a user with R in requested AND granted mode; no session is there twice; the copy carries the acknowledged number, the true author, the content and the headers unchanged except the server-controlled sender; the push goes exactly to non-removed subscribers with R and P.',
-    level_note="Group and peer-to-peer topics (the p2p naming clause - each copy names the topic by the recipient's peer - and the p2p push addressing are decided by the differential run and the monitor; theorems are about the group fan-out, which the p2p topics share); the channel clauses are outside the model. Ordering at a session follows from C01's numbering and the single fan-out per publish; it is checked by the monitor on histories, not proved as a separate theorem.",
+    level_note="Group and peer-to-peer topics (the p2p naming clause - each copy names the topic by the recipient's peer - and the p2p push addressing are decided by the differential run and the monitor; theorems are about the group fan-out, which the p2p topics share); channels: who gets a copy on a channel-enabled topic, that nobody gets two, and that readers are never pushed individually are theorems (Props/C02c.lean); the `chn` spelling and the withheld author of a reader's copy are decided by the differential run and the monitor. Ordering at a session follows from C01's numbering and the single fan-out per publish; it is checked by the monitor on histories, not proved as a separate theorem.",
     technique='Lean 4 proof (list membership/filter lemmas over the fan-out) + differential correspondence of the world model + history monitor',
-    modules=["TinodeVerif.Props.C02"],
-    theorems=[T + n for n in ['recipient_iff', 'one_copy_each', 'copy_is_uniform', 'no_echo', 'head_unaltered', 'sender_header', 'push_addressees', 'accepted_traffic']],
+    modules=["TinodeVerif.Props.C02", "TinodeVerif.Props.C02c"],
+    theorems=[T + n for n in ['recipient_iff', 'one_copy_each', 'copy_is_uniform', 'no_echo', 'head_unaltered', 'sender_header', 'push_addressees', 'accepted_traffic', 'fanoutDataC_eq', 'chan_recipient_iff', 'chan_one_copy_each', 'chan_push_addressees', 'reader_not_pushed', 'chan_want_join_read', 'chan_want_within']],
     streams=[world.world_stream("C02")],
     seeds=dict(quick=1, thorough=4),
     rule="random histories of 30-120 requests per case (420 cases quick, 600 thorough per seed, every third a clause scenario with random parameters) over 4 users, 7 sessions (two per user, "
